@@ -64,7 +64,12 @@ def run_evaluate(col):
     def solver(A=None, M=None, sigma=None, **kw):
         rec.update(A=A, M=M, sigma=sigma, kw=kw)
         k = 3
-        return symarray("lam", (k,), positive=True), symarray("phi", (len(dof1), k))
+        # an indefinite pencil (pre-stressed beyond a stability limit): a negative, a zero and a positive eigenvalue
+        lam = symarray("lam", (k,), positive=True)
+        lam[0] = P(Fraction(-3, 2))
+        lam[1] = ZERO
+        rec["lam"], rec["phi"] = lam, symarray("phi", (len(dof1), k))
+        return lam.copy(), rec["phi"].copy()
 
     FV = it.get("felupe.mechanics._free_vibration:FreeVibration")
     job = it.call(FV, [items], dict(boundaries={}))
@@ -86,6 +91,11 @@ def run_evaluate(col):
                 badM.append((int(i), int(j)))
     col.add("C18.O1", "FreeVibration.evaluate stiffness", "A == sum over items of (multiplier *) K resized to the global shape, rows and columns restricted to the free unknowns", not badK and A.shape == (len(dof1),) * 2, "%s: %s" % (w, badK[:4]))
     col.add("C18.O1", "FreeVibration.evaluate mass", "M == sum over items of the mass matrices resized alike and sliced with the same free unknowns", not badM and M.shape == (len(dof1),) * 2, "%s: %s" % (w, badM[:4]))
+    ev_, evec_ = npmodel.to_obj(np.asarray(it.getattr(job, "eigenvalues"))), npmodel.to_obj(np.asarray(it.getattr(job, "eigenvectors")))
+    okp = ev_.shape == rec["lam"].shape and evec_.shape == rec["phi"].shape and all(is_zero(P(a) - P(b)) for a, b in zip(ev_.reshape(-1), rec["lam"].reshape(-1))) \
+        and all(is_zero(P(a) - P(b)) for a, b in zip(evec_.reshape(-1), rec["phi"].reshape(-1)))
+    col.add("C18.O1", "FreeVibration.evaluate eigenpairs", "the stored (eigenvalue, eigenvector) pairs are the solver's pairs, unchanged (negative and zero eigenvalues of an indefinite pencil included): only those satisfy K v = lambda M v",
+            okp, "%s: stored eigenvalues %s, solver returned %s" % (w, [ring.fmt(P(v), 3) for v in ev_.reshape(-1)], [ring.fmt(P(v), 3) for v in rec["lam"].reshape(-1)]))
     col.add("C18.O1", "FreeVibration.evaluate solver arguments", "sigma and further keyword arguments are forwarded to the eigen-solver", is_zero(P(rec["sigma"]) - sym("sig")) and rec["kw"].get("k") == 3, str(rec["kw"]))
     # a second evaluation of the same job after the boundary dictionary changed: the new partition is used
     dof0b = np.array([0, 1])
